@@ -11,6 +11,8 @@
 (b) parity abstract interpretation (engine/parity.py) for the odd / even functions: bit-for-bit f(-x) = -f(x) / f(x)
     (a NaN result carries no sign: where f(x) is the NaN constant, f(-x) is the same constant).
 (c) identities between entry points: fabs == abs, rint == nearbyint (identical canonical instruction sequences).
+(d) sincos(x) == (sin x, cos x): per loop-free control path (same branch decisions) the lane terms of sincos().first /
+    .second and of sin / cos must be identical after constant folding (engine/foldc.py).
 An obligation the analysis cannot establish on the unchanged tree is listed as undecided (not claimed); one that was
 established when the decided set was frozen and no longer is, is a violation.  Not decided at all: pow's clauses,
 sincos == (sin, cos); listed as undecided: sin/cos/tan of NaN and cos(0)=1 (the per-lane Payne-Hanek fallback goes through
@@ -174,6 +176,37 @@ def analyse(cfgname):
                 got = 'error %r' % (e,)
             ok = (got == ('O' if want == 'odd' else 'E'))
             out['parity'].append(('parity|%s|%s' % (f, tn), ok, got, '%s is %s: f(-x) = %sf(x) bit for bit' % (f, want, '-' if want == 'odd' else '')))
+        # (d) sincos(x) == (sin x, cos x) bit for bit: path by path (the same whole-batch / fdlibm branch decisions), the
+        # lane terms of the two entry points must be identical after constant folding
+        try:
+            from . import c10trig as TRG
+            from engine import terms as TT, foldc
+            TT.reset()
+            fo = foldc.Folder()
+
+            def paths_of(name):
+                fn_ = mod.functions.get(name)
+                if fn_ is None:
+                    return None
+                done, dropped = TRG.explore(mod, fn_, 1, limit=200)
+                d = {}
+                for (term, assumed, prefix) in done:
+                    d[frozenset((TT._key(TT.canon(c_)), kind) for (kind, c_) in assumed)] = (fo.fold(term), ''.join('T' if x else 'F' for x in prefix))
+                return d
+            for (one, both) in (('sin', 'sincoss'), ('cos', 'sincosc')):
+                pa, pb = paths_of('m_%s_%s' % (one, tn)), paths_of('m_%s_%s' % (both, tn))
+                if pa is None or pb is None:
+                    out['broken_list'].append('wrapper m_%s_%s / m_%s_%s missing' % (one, tn, both, tn))
+                    continue
+                for k, (ta, pre) in sorted(pa.items(), key=lambda kv: kv[1][1]):
+                    if k not in pb:
+                        out['parity'].append(('sincos|%s|%s|path %s' % (one, tn, pre), False, 'no control path of sincos with the same branch decisions', 'sincos(x) equals (sin x, cos x) bit for bit'))
+                        continue
+                    same = TT._key(ta) == TT._key(pb[k][0])
+                    out['parity'].append(('sincos|%s|%s|path %s' % (one, tn, pre), same, 'lane terms %s' % ('identical' if same else 'differ (equivalent quadrant arithmetic is not recognised)'),
+                                          'sincos(x).%s equals %s(x) bit for bit on this control path' % ('first' if one == 'sin' else 'second', one)))
+        except Exception as e:
+            out['broken_list'].append('sincos identity: %r' % (e,))
         for (f, g) in IDENT:
             ff, fg = mod.functions.get('m_%s_%s' % (f, tn)), mod.functions.get('m_%s_%s' % (g, tn))
             if ff is None or fg is None:
@@ -304,7 +337,7 @@ def run(a):
            'evaluations': nob, 'distinct_nontrivial': nob - nbad, 'checker_cmd': 'python3 /verif/check.py C12 --tier %s' % a.tier,
            'trusted_base': ['clang 14 -O2 translation of the headers', 'engine/fpclass.py transfer functions (IEEE-754 at class level, outward-widened intervals)', 'engine/parity.py sign algebra'],
            'rule': 'result class subset of the class the statement lists / result parity equals the function parity', 'headers_sha256': build.headers_hash()}
-    return r.finish(cov, ['pow (negative base, pow(x,0)=1) and sincos==(sin,cos) are NOT decided; undecided obligations are listed, not claimed',
+    return r.finish(cov, ['pow (negative base, pow(x,0)=1) is NOT decided; undecided obligations are listed, not claimed',
                           'the lane abstraction (a vector value stands for the elements derived from the tracked argument lane) relies on lane-locality of the data flow, which C13 decides on the same wrappers and configurations',
                           'parity: NaN results are exempt from the sign rule (the NaN constant is returned for x and for -x)',
                           'the sum of two odd terms is treated as odd: exact in round-to-nearest unless the two terms cancel exactly (both results are then +0)',
